@@ -573,6 +573,13 @@ func (f *Field) applyOptions(opt FieldOptions) error {
 		f.options.TimeQuantum = ""
 		f.options.Keys = opt.Keys
 	case FieldTypeInt:
+		// A bit depth of zero in the meta file marks a field written in the
+		// v1 BSI format (see loadMeta), so a field in the current format never
+		// has one: otherwise a new field that only holds zeros (or nothing)
+		// would be re-based to its minimum by the next Open.
+		if opt.BitDepth == 0 {
+			opt.BitDepth = 1
+		}
 		f.options.Type = opt.Type
 		f.options.CacheType = CacheTypeNone
 		f.options.CacheSize = 0
